@@ -189,7 +189,28 @@ def embed_guards(model, p):
                 g['__infeasible__'] = True
         else:
             unknown.append((atom, pol))
-    return g, unknown
+    # an un-understood test that looks at the *un-merged* inner operand only (and not at what the merge with the forwarded
+    # stars made of it) cannot be the test "does the first inner positional parameter of the result have a default":
+    # it is recorded as foreign and does not leave the verdict open -- the rules then find the clearing decision not tied
+    # to the merged inner signature
+    still = []
+    for atom, pol in unknown:
+        sides_ = set()
+        for x in atom[1:]:
+            if isinstance(x, tuple):
+                for s_ in subterms(x):
+                    if s_ == model.p_inner:
+                        sides_.add('rawinner')
+                    elif s_ == model.merger:
+                        sides_.add('inner')
+                    b_ = model.sides.bucket(s_) if isinstance(s_, tuple) else None
+                    if b_ is not None:
+                        sides_.add(b_[0])
+        if 'rawinner' in sides_ and 'inner' not in sides_:
+            g[('foreign', show_lit((atom, True))[:60])] = pol
+        else:
+            still.append((atom, pol))
+    return g, still
 
 
 def rule_embed_buckets(check, model, rules):
